@@ -201,7 +201,7 @@ def build_reply(cfg, req, varbinds, pdu_tag=rb.PDU_RESPONSE, request_id=None, er
         priv_params = bytes(priv_params)
     if auth_params is not None:
         usm = rb.usm_params(eid, b, t, u, bytes(auth_params), priv_params)
-        return rb.msg_v3(mid, max_size, flags, sec_model, usm, data, forms.get("msg", 0))
+        return rb.msg_v3(mid, max_size, flags, sec_model, usm, data, forms.get("msg", 0), 3 if version is None else version)
     if cfg.auth is None or mac == "absent":
         ap = b""
     elif mac == "short":
@@ -209,11 +209,12 @@ def build_reply(cfg, req, varbinds, pdu_tag=rb.PDU_RESPONSE, request_id=None, er
     else:
         ap = b"\x00" * 12
     usm = rb.usm_params(eid, b, t, u, ap, priv_params)
-    msg = rb.msg_v3(mid, max_size, flags, sec_model, usm, data, forms.get("msg", 0))
+    msg = rb.msg_v3(mid, max_size, flags, sec_model, usm, data, forms.get("msg", 0), 3 if version is None else version)
     if ap and len(ap) == 12:
         kula = cfg.kul_auth(eid)
-        m = rb.parse_message(msg, strict=False, data=False)
-        s0, s1 = m["auth_span"]
+        # locate the auth field on a version-3 twin (offsets do not depend on the version value)
+        twin = rb.msg_v3(mid, max_size, flags, sec_model, usm, data, forms.get("msg", 0), 3)
+        s0, s1 = rb.parse_message(twin, strict=False, data=False)["auth_span"]
         good = ru.hmac96(cfg.auth, kula, msg)
         if mac == "valid":
             tag = good
@@ -310,6 +311,15 @@ class AgentThread(threading.Thread):
         self.errors = []
         self.received = []
 
+    def _handle(self, d, a):
+        self.received.append(d)
+        try:
+            for out in self.handler(d) or []:
+                self.sock.sendto(out, a)
+        except Exception as e:  # harness bug: surface it, never swallow
+            import traceback
+            self.errors.append(repr(e) + traceback.format_exc())
+
     def run(self):
         while not self._halt.is_set():
             try:
@@ -317,13 +327,16 @@ class AgentThread(threading.Thread):
             except socket.timeout:
                 continue
             except OSError:
-                break
-            self.received.append(d)
+                return
+            self._handle(d, a)
+        # drain what is still queued so that every request the client sent is seen
+        self.sock.setblocking(False)
+        while True:
             try:
-                for out in self.handler(d) or []:
-                    self.sock.sendto(out, a)
-            except Exception as e:  # harness bug: surface it, never swallow
-                self.errors.append(repr(e))
+                d, a = self.sock.recvfrom(65535)
+            except OSError:
+                break
+            self._handle(d, a)
 
     def stop(self):
         self._halt.set()
